@@ -269,7 +269,7 @@ impl encode::EncodeLtd for SubscribeAck {
         2 + ack_props::encoded_size(
             &self.properties,
             &self.reason_string,
-            limit - 2 - len as u32,
+            encode::reduce_limit(limit, 2 + len),
         ) + len
     }
 
